@@ -3,6 +3,7 @@ package rules
 import (
 	"fmt"
 	"go/token"
+	"go/types"
 	"sort"
 	"strings"
 
@@ -145,6 +146,8 @@ func runC06(ctx *core.Ctx) {
 	ctx.Rule("L3", "one open file description per File: openFile opens once; the embedded *os.File is stored only in OpenFile", 2)
 	ctx.Rule("L4", "held until Close: filelock.Unlock is called only from closeFile and openFile's failure path; closeFile unlocks strictly before it closes; File.Close reaches closeFile once, behind the closed flag; nothing in package lockedfile removes or renames a file (the lock lives on the inode)", 4)
 	ctx.Rule("L5", "OS binding: the lock-type constants have the values of the platform's shared/exclusive/unlock constants, and the lock call retries on EINTR and returns every other error", 3)
+	ctx.Rule("L7", "release survives a panic in caller-supplied code: each call of a function-typed parameter made while a locked File is held is dominated by a defer that closes the File, in the function itself or in all its callers", 1)
+	ctx.Rule("L8", "no effect before the lock: the flag word of the OS open that precedes the lock call has the O_TRUNC bit cleared whatever the caller passed", 1)
 	ctx.Rule("L6", "acquire/release pairing: Read, Write and Transform close the File they opened on every path; Mutex.Lock hands the File to the returned function, which closes it", 4)
 
 	of := ctx.Need("L1", "lockedfile", "openFile")
@@ -162,6 +165,18 @@ func runC06(ctx *core.Ctx) {
 			return
 		}
 		ctx.OK("L3", "lockedfile.openFile#open-once", opens[0].Pos(), "exactly one OS open per openFile")
+		{
+			// ---- L8: the open itself changes nothing
+			trunc := osFlag(p, "O_TRUNC")
+			okT := true
+			for _, fl := range []int64{-1, trunc, trunc | osFlag(p, "O_RDWR") | osFlag(p, "O_CREATE"), trunc | osFlag(p, "O_WRONLY")} {
+				v, evalOK := evalInt(opens[0].Call.Args[1], map[ssa.Value]int64{flagP: fl})
+				if !evalOK || v&trunc != 0 {
+					okT = false
+				}
+			}
+			ctx.Check(okT, "L8", "lockedfile.openFile#no-effect-before-lock", opens[0].Pos(), "the OS open made before the lock is taken has O_TRUNC cleared for every caller flag (with it the kernel empties the file while another holder - reader or writer - still holds its lock)")
+		}
 		open := opens[0]
 		oerr := ssax.Extracted(open, 1)
 		start := -1
@@ -479,6 +494,103 @@ func runC06(ctx *core.Ctx) {
 			}
 		}
 		ctx.Check(bad == "", "L6", "lockedfile."+name+"#close", openCall.Pos(), "the locked file is closed (directly or by defer) on every path after a successful open %s", bad)
+	}
+	// ---- L7: caller-supplied code runs with the release already deferred
+	{
+		lfp := p.Pkg("lockedfile")
+		var lfFuncs []*ssa.Function
+		for _, f := range p.ModFuncs() {
+			if f.Pkg == lfp && f.Blocks != nil {
+				lfFuncs = append(lfFuncs, f)
+			}
+		}
+		closeDeferredBefore := func(f *ssa.Function, at ssa.Instruction) bool {
+			fg := graph(p, f)
+			ok := false
+			fg.Instrs(func(i ssa.Instruction) {
+				d, isD := i.(*ssa.Defer)
+				if !isD || !fg.Dominates(d, at) {
+					return
+				}
+				if ssax.CalleeName(&d.Call) == "(*"+lfPkg+".File).Close" {
+					ok = true
+				}
+				// defer func() { ... f.Close() ... }()
+				if mc, isMC := d.Call.Value.(*ssa.MakeClosure); isMC {
+					graph(p, mc.Fn.(*ssa.Function)).Instrs(func(j ssa.Instruction) {
+						if c := ssax.CallOf(j); c != nil && ssax.CalleeName(c) == "(*"+lfPkg+".File).Close" {
+							ok = true
+						}
+					})
+				}
+			})
+			return ok
+		}
+		var covered func(f *ssa.Function, at ssa.Instruction, depth int) bool
+		covered = func(f *ssa.Function, at ssa.Instruction, depth int) bool {
+			if closeDeferredBefore(f, at) {
+				return true
+			}
+			if depth > 3 || f.Object() == nil || f.Object().Exported() {
+				return false
+			}
+			sites := 0
+			for _, cf := range lfFuncs {
+				bad := false
+				graph(p, cf).Instrs(func(i ssa.Instruction) {
+					c := ssax.CallOf(i)
+					if c == nil || c.StaticCallee() != f {
+						return
+					}
+					sites++
+					if !covered(cf, i, depth+1) {
+						bad = true
+					}
+				})
+				if bad {
+					return false
+				}
+			}
+			return sites > 0
+		}
+		n := 0
+		for _, f := range lfFuncs {
+			holdsFile := false
+			for _, prm := range f.Params {
+				if isNamed(prm.Type(), lfPkg, "File") {
+					holdsFile = true
+				}
+			}
+			fg := graph(p, f)
+			fg.Instrs(func(i ssa.Instruction) {
+				if c, ok := i.(*ssa.Call); ok {
+					if cal := c.Call.StaticCallee(); cal != nil && cal.Pkg == lfp && cal.Signature.Results().Len() == 2 && isNamed(cal.Signature.Results().At(0).Type(), lfPkg, "File") {
+						holdsFile = true
+					}
+				}
+			})
+			if !holdsFile {
+				continue
+			}
+			fg.Instrs(func(i ssa.Instruction) {
+				c, ok := i.(*ssa.Call)
+				if !ok || c.Call.IsInvoke() {
+					return
+				}
+				prm, isP := ssax.Strip(c.Call.Value).(*ssa.Parameter)
+				if !isP {
+					return
+				}
+				if _, isSig := prm.Type().Underlying().(*types.Signature); !isSig {
+					return
+				}
+				n++
+				ctx.Check(covered(f, i, 0), "L7", shortFn(f)+"#callback-"+prm.Name(), c.Pos(), "the caller's function %s runs only after Close of the locked File has been deferred, in this function or in every caller (otherwise a panic in it, recovered further up, leaves the path locked for every process until the descriptor is collected)", prm.Name())
+			})
+		}
+		if n == 0 {
+			ctx.Note("L7", "lockedfile#callbacks", token.NoPos, "no caller-supplied function is called while a File is held")
+		}
 	}
 	if ml := ctx.Need("L6", "lockedfile", "(*Mutex).Lock"); ml != nil {
 		mg := graph(p, ml)
